@@ -22,21 +22,21 @@ RULE = (
 )
 BOUNDS = {
     "quick": "m,n<=4, all ranks, all compositions, values {4,2,1,1/2} (gap >= 2^-1 above threshold), 3 factor kinds; laws on 6x6 pairs of invertible factors per size n<=3; Moore on all n<=3 compositions x sign patterns",
-    "thorough": "m,n<=5, laws n<=4",
+    "thorough": "m,n<=6, laws n<=5",
 }
 WALL_BUDGET = {"quick": 300, "thorough": 2400}
 ASSUMPTIONS = ["no borderline singular values: non-zero values are >= 1/4, far above eps*max(m,n)*sigma_max"]
 
 
 def cases(tier, seed):
-    S = 4 if tier == "quick" else 5
+    S = 4 if tier == "quick" else 6
     out = []
     for m, n in itertools.product(range(1, S + 1), repeat=2):
         p = min(m, n)
         for vals, comp, r in SG.spectra(p):
             for kU, kV in SG.FACTOR_KINDS:
                 out.append({"key": f"rank/{m}x{n}/r={r}/c={'-'.join(map(str, comp)) or '0'}/{kU}", "grp": "rank", "m": m, "n": n, "vals": vals, "kU": kU, "kV": kV})
-    L = 3 if tier == "quick" else 4
+    L = 3 if tier == "quick" else 5
     for n in range(1, L + 1):
         for a, b in itertools.product(range(6), repeat=2):
             out.append({"key": f"laws/n={n}/G={a}/H={b}", "grp": "laws", "n": n, "a": a, "b": b})
@@ -68,7 +68,7 @@ def invertible(idx, n, fill):
         return T
     if idx == 4:
         return G.unitary("hh", n, fill, variant=2)
-    return G.with_spectrum(G.unitary("hh", n, fill, variant=3), [4.0, 1.0, 0.5, 2.0, 0.25][:n], G.unitary("hh", n, fill, variant=5))
+    return G.with_spectrum(G.unitary("hh", n, fill, variant=3), [4.0, 1.0, 0.5, 2.0, 0.25, 8.0][:n], G.unitary("hh", n, fill, variant=5))
 
 
 def det_exp(A):
@@ -176,7 +176,7 @@ def run_case(case, seed):
     # Moore determinant
     n = case["n"]
     lam = []
-    for c, s, v in zip(case["comp"], case["signs"], (2.0, 0.5, 4.0, 1.0, 0.25)):
+    for c, s, v in zip(case["comp"], case["signs"], (2.0, 0.5, 4.0, 1.0, 0.25, 8.0)):
         lam += [s * v] * c
     V = G.unitary(case["kind"], n, fill, variant=n)
     A = G.herm_with_spectrum(V, lam)
